@@ -185,23 +185,72 @@ abbrev Lv := List (Nat × Option Nat)
 /-- the level of a frame id -/
 def Lv.lev (lv : Lv) (c : Nat) : Option Nat := (lv.lookup c).getD none
 
-/-- the pending goals `G` of the VM and the resolvent `R` of the reference; the level of a cut goal
-    is the level of its cut parent -/
-def GRel (lv : Lv) (σ : Subst) (π : Nat → Nat) (D : Nat → Prop) (G : List (Term × Nat)) (R : List SLD.Frame) : Prop :=
-  Forall2 (fun g fr => InD D g.1 ∧ ∃ l, fr = SLD.Frame.goal (img σ π g.1) l ∧
-    (g.1 = .atom "!" → lv.lev g.2 = some l)) G R
+/-- a frame of the reference the VM has no goal for: `call(true)` (what the reference makes of the
+    `true` in `once(G)` ≡ `(call(G) -> true)` and `\\+ G` ≡ `(call(G) -> fail ; true)`) -/
+abbrev skipF (l : Nat) : SLD.Frame := .goal (SLD.call1 (.atom "true")) l
+
+/-- a pending goal of the VM against a frame of the reference: the frame is the image of the goal,
+    possibly inside one more `call/1` (the reference's `once/1` and `\\+` call `call(G)`); the level
+    of a cut goal is the level of its cut parent -/
+def HRel (lv : Lv) (σ : Subst) (π : Nat → Nat) (D : Nat → Prop) (g : Term × Nat) (fr : SLD.Frame) : Prop :=
+  InD D g.1 ∧ ∃ l, (fr = SLD.Frame.goal (img σ π g.1) l ∨
+      ((∃ x, g.1 = .app "call" (.cons x .nil)) ∧ fr = SLD.Frame.goal (SLD.call1 (img σ π g.1)) l)) ∧
+    (g.1 = .atom "!" → lv.lev g.2 = some l)
+
+/-- the pending goals `G` of the VM and the resolvent `R` of the reference -/
+inductive GRel (lv : Lv) (σ : Subst) (π : Nat → Nat) (D : Nat → Prop) : List (Term × Nat) → List SLD.Frame → Prop
+  | nil : GRel lv σ π D [] []
+  | skip {G : List (Term × Nat)} {R : List SLD.Frame} (l : Nat) : GRel lv σ π D G R → GRel lv σ π D G (skipF l :: R)
+  | cons {g : Term × Nat} {G : List (Term × Nat)} {fr : SLD.Frame} {R : List SLD.Frame} :
+      HRel lv σ π D g fr → GRel lv σ π D G R → GRel lv σ π D (g :: G) (fr :: R)
+
+theorem GRel.map {lv lv' : Lv} {σ σ' : Subst} {π π' : Nat → Nat} {D D' : Nat → Prop} {G : List (Term × Nat)}
+    {R : List SLD.Frame} (f : SLD.Frame → SLD.Frame) (hs : ∀ l, f (skipF l) = skipF l)
+    (h : GRel lv σ π D G R) (hH : ∀ g ∈ G, ∀ fr, HRel lv σ π D g fr → HRel lv' σ' π' D' g (f fr)) :
+    GRel lv' σ' π' D' G (R.map f) := by
+  induction h with
+  | nil => exact .nil
+  | skip l _ ih => rw [List.map_cons, hs]; exact .skip l (ih hH)
+  | cons hd _ ih =>
+    exact .cons (hH _ (by simp) _ hd) (ih (fun g hg => hH g (by simp [hg])))
+
+theorem GRel.imp {lv lv' : Lv} {σ σ' : Subst} {π π' : Nat → Nat} {D D' : Nat → Prop} {G : List (Term × Nat)}
+    {R : List SLD.Frame} (h : GRel lv σ π D G R)
+    (hH : ∀ g ∈ G, ∀ fr, HRel lv σ π D g fr → HRel lv' σ' π' D' g fr) : GRel lv' σ' π' D' G R := by
+  have := h.map (lv' := lv') (σ' := σ') (π' := π') (D' := D') id (fun _ => rfl) hH
+  simpa using this
+
+theorem GRel.append {lv : Lv} {σ : Subst} {π : Nat → Nat} {D : Nat → Prop} {G1 G2 : List (Term × Nat)}
+    {R1 R2 : List SLD.Frame} (h1 : GRel lv σ π D G1 R1) (h2 : GRel lv σ π D G2 R2) :
+    GRel lv σ π D (G1 ++ G2) (R1 ++ R2) := by
+  induction h1 with
+  | nil => exact h2
+  | skip l _ ih => exact .skip l ih
+  | cons hd _ ih => exact .cons hd ih
+
+theorem GRel.of_forall2 {lv : Lv} {σ : Subst} {π : Nat → Nat} {D : Nat → Prop} {G : List (Term × Nat)}
+    {R : List SLD.Frame} (h : Forall2 (HRel lv σ π D) G R) : GRel lv σ π D G R := by
+  induction h with
+  | nil => exact .nil
+  | cons hd _ ih => exact .cons hd ih
+
+theorem skipF_subst (θ : List (Nat × Term)) (l : Nat) : SLD.Frame.subst θ (skipF l) = skipF l := by
+  simp [skipF, SLD.Frame.subst, applySubst_eq, SLD.call1, Term.subst, Args.subst]
 
 theorem GRel.step {lv : Lv} {σ σ' : Subst} {π π' : Nat → Nat} {D D' : Nat → Prop} {G : List (Term × Nat)}
     {R : List SLD.Frame}
     (h : GRel lv σ π D G R) (hD : ∀ v, D v → D' v) (θ : List (Nat × Term))
     (heq : ∀ t, InD D t → img σ' π' t = (img σ π t).subst (substOf θ)) :
     GRel lv σ' π' D' G (R.map (SLD.Frame.subst θ)) := by
-  induction h with
-  | nil => exact .nil
-  | cons hd _ ih =>
-    obtain ⟨hg, l, rfl, hl⟩ := hd
-    refine .cons ⟨fun v hv => hD v (hg v hv), l, ?_, hl⟩ ih
+  refine h.map _ (skipF_subst θ) ?_
+  rintro g _ fr ⟨hg, l, hfr, hl⟩
+  refine ⟨fun v hv => hD v (hg v hv), l, ?_, hl⟩
+  rcases hfr with rfl | ⟨hne, rfl⟩
+  · left
     simp only [SLD.Frame.subst, applySubst_eq, heq _ hg]
+  · right
+    refine ⟨hne, ?_⟩
+    simp only [SLD.Frame.subst, applySubst_eq, heq _ hg, SLD.call1, Term.subst, Args.subst]
 
 /-! ### the activation -/
 
@@ -252,7 +301,8 @@ theorem thunk_head' {fl : Bool} {tmpl : Term} {max : Nat} {cl : Clause} {h b : T
             (∀ v, D v → D' v) ∧
             (∀ t, InD D t → img σ' π' t = (img σ π t).subst τ2) ∧
             (∀ G, ContGoals fl tmpl max K G → ContGoals fl tmpl max K1 (G1 ++ G)) ∧
-            Forall2 (fun g1 bg => InD D' g1.1 ∧ g1.2 = id ∧ img σ' π' g1.1 = (bg.rename κ).subst τ2) G1 Bs ∧
+            Forall2 (fun g1 bg => InD D' g1.1 ∧ g1.2 = id ∧ img σ' π' g1.1 = (bg.rename κ).subst τ2 ∧
+              ∃ ρ', g1.1 = bg.rename ρ') G1 Bs ∧
             (∀ v, D' v → D v ∨ ∃ x, (h.hasVar x = true ∨ b.hasVar x = true) ∧
               img σ' π' (.var v) = ((Term.var x).rename κ).subst τ2)) := by
   obtain ⟨hargs, pre, bops, gs, hl, hcode, hpre, hsem, hgoals, hbody⟩ := hcr.info
@@ -354,7 +404,7 @@ theorem thunk_head' {fl : Bool} {tmpl : Term} {max : Nat} {cl : Clause} {h b : T
         intro g0 hg0
         have hgV : ∀ x, (goalTerm g0).hasVar x = true → V x := fun x hx => Or.inr ⟨g0, hg0, hx⟩
         obtain ⟨h1, h2⟩ := himg_new (goalTerm g0) hgV
-        exact ⟨h2, rfl, by rw [heq' _ h2, h1]⟩
+        exact ⟨h2, rfl, by rw [heq' _ h2, h1], ρ, rfl⟩
 
 theorem maxVar_rule (h b : Term) : SLD.maxVar (SLD.rule h b) = Nat.max (SLD.maxVar h) (SLD.maxVar b) := by
   simp [SLD.rule, SLD.mk2, SLD.maxVar, SLD.maxVarArgs]
@@ -377,7 +427,7 @@ theorem thunk_head {fl : Bool} {tmpl : Term} {max : Nat} {cl : Clause} {h b : Te
             (∀ t, InD D t → img σ' π' t = (img σ π t).subst (substOf θ2)) ∧
             (∀ G, ContGoals fl tmpl max K G → ContGoals fl tmpl max K1 (G1 ++ G)) ∧
             Forall2 (fun g1 bg => InD D' g1.1 ∧ g1.2 = id ∧
-              img σ' π' g1.1 = (SLD.shift nv bg).subst (substOf θ2)) G1 Bs) := by
+              img σ' π' g1.1 = (SLD.shift nv bg).subst (substOf θ2) ∧ ∃ ρ', g1.1 = bg.rename ρ') G1 Bs) := by
   have hlt : ∀ x, (h.hasVar x = true ∨ b.hasVar x = true) → x < SLD.maxVar (SLD.rule h b) := by
     intro x hx
     rw [maxVar_rule]
